@@ -448,6 +448,27 @@ add("C06", "sonar-status-constant-includes-closed", "core_codemods/sonar/results
      ("class SonarLocation(Location):", "_OPEN = (\"open\", \"to_review\", \"resolved\")\n\n\nclass SonarLocation(Location):")],
     "fire", "R-OPEN-STATUS", "SonarResultSet.from_json")
 
+add("C08", "with-extent-decided-by-last-alias", "core_codemods/file_resource_leak.py",
+    [("                if not last_index or (\n                    last_index_for_node and last_index_for_node > last_index\n                ):\n                    last_index = last_index_for_node\n",
+      "                last_index = last_index_for_node\n")],
+    "fire", "R-EXTENT-ALL-NAMES", "_find_last_index_with_access")
+add("C08", "benign-with-extent-running-max", "core_codemods/file_resource_leak.py",
+    [("                if not last_index or (\n                    last_index_for_node and last_index_for_node > last_index\n                ):\n                    last_index = last_index_for_node\n",
+      "                if last_index_for_node:\n                    last_index = max(last_index or 0, last_index_for_node)\n")],
+    "silent")
+add("C08", "sql-opening-quote-first-match", "core_codemods/sql_parameterization.py",
+    [("            quote_span = list(raw_quote_pattern.finditer(raw_value))[-1]\n        else:\n            quote_span = list(quote_pattern.finditer(raw_value))[-1]\n",
+      "            quote_span = raw_quote_pattern.search(raw_value)\n        else:\n            quote_span = quote_pattern.search(raw_value)\n")],
+    "fire", "R-CUT-SIDE", "_fix_injection")
+add("C08", "sql-closing-quote-last-match", "core_codemods/sql_parameterization.py",
+    [("            quote_span = list(raw_quote_pattern.finditer(raw_value))[0]\n        else:\n            quote_span = list(quote_pattern.finditer(raw_value))[0]\n",
+      "            quote_span = list(raw_quote_pattern.finditer(raw_value))[-1]\n        else:\n            quote_span = list(quote_pattern.finditer(raw_value))[-1]\n")],
+    "fire", "R-CUT-SIDE", "_fix_injection")
+add("C08", "benign-sql-closing-quote-by-search", "core_codemods/sql_parameterization.py",
+    [("            quote_span = list(raw_quote_pattern.finditer(raw_value))[0]\n        else:\n            quote_span = list(quote_pattern.finditer(raw_value))[0]\n",
+      "            quote_span = raw_quote_pattern.search(raw_value)\n        else:\n            quote_span = next(quote_pattern.finditer(raw_value))\n")],
+    "silent")
+
 # --------------------------------------------------------------------------- C02
 add("C02", "secure-random-import-dropped", "core_codemods/secure_random.py",
     [("        self.add_needed_import(\"secrets\")\n", "")],
